@@ -10,16 +10,33 @@ import time
 from . import kernel
 
 
-def _same(prop, want_kind, cfg, salt, stim):
+def _class_of(prop, r):
+    """Violation class of a result: the kind plus whatever the property uses to tell classes / known findings
+    apart, so that minimisation cannot drift from one defect into another one of the same kind."""
+    feats = {"kind": r["violation"]["kind"]}
+    if hasattr(prop, "features"):
+        try:
+            feats.update(prop.features(r["cfg"], r["violation"]))
+        except Exception:
+            pass
+    if hasattr(prop, "violation_class"):
+        try:
+            return repr(sorted(prop.violation_class(feats).items()))
+        except Exception:
+            pass
+    return feats["kind"]
+
+
+def _same(prop, want, cfg, salt, stim):
     r = kernel.replay_record(prop, cfg, salt, stim, wall_budget=20.0)
-    if r["status"] == "violation" and r["violation"]["kind"] == want_kind:
+    if r["status"] == "violation" and _class_of(prop, r) == want:
         return r
     return None
 
 
 def minimise(prop, res, budget_s=30.0):
     t_end = time.time() + budget_s
-    kind = res["violation"]["kind"]
+    kind = _class_of(prop, res)
     cfg, salt = res["cfg"], res["salt"]
     stim = list(res["stimulus"] or [])
     best = _same(prop, kind, cfg, salt, stim)
